@@ -955,6 +955,8 @@ def c17_plan(pid, tier, seed, t0):
                 conv += 1
                 continue
             cid, _, kind = key.partition(".")
+            if kind.startswith("big."):
+                cid, kind = cid + ".big", kind[4:]
             if c == "n-default":
                 kinds[kind] = kinds.get(kind, 0) + 1
                 merged["distinct"].add(hash(ln) & 0xFFFFFFFFFFFF)
